@@ -67,6 +67,74 @@ def check(model, where, failures):
         failures.append(f"{where}: round trip failed {e!r}"[:200])
 
 
+
+def nested_annotation_cases(failures):
+    """Annotations on nodes INSIDE nested graphs whose own values carry the name of an enclosing-scope value: after the IR-11
+    round trip every spec of such a node still targets that node's own input/output (innermost scope wins), the
+    library's checker reports nothing, and sharding_of() finds it."""
+    count = 0
+    F32 = ir.TensorType(ir.DataType.FLOAT)
+
+    def val(name):
+        return ir.Value(name=name, type=F32, shape=ir.Shape([2, 4]))
+
+    def all_nodes(g):
+        for n in g:
+            yield n
+            for a in n.attributes.values():
+                if a.type == ir.AttributeType.GRAPH:
+                    yield from all_nodes(a.as_graph())
+                elif a.type == ir.AttributeType.GRAPHS:
+                    for sg in a.as_graphs():
+                        yield from all_nodes(sg)
+
+    for variant in ("body-input", "branch-local-output"):
+        for axis in (0, -1):
+            count += 1
+            x = val("x")
+            outer = ir.Node("", "Relu", [x], num_outputs=1, name="outer")
+            outer.outputs[0].name, outer.outputs[0].type, outer.outputs[0].shape = "h", F32, ir.Shape([2, 4])
+            if variant == "body-input":
+                h_in = val("h")
+                inner = ir.Node("", "Neg", [h_in], num_outputs=1, name="inner")
+                inner.outputs[0].name, inner.outputs[0].type, inner.outputs[0].shape = "h_next", F32, ir.Shape([2, 4])
+                sub = ir.Graph([h_in], [inner.outputs[0]], nodes=[inner], name="body")
+                target = h_in
+            else:
+                inner = ir.Node("", "Sub", [x, x], num_outputs=1, name="inner")
+                inner.outputs[0].name, inner.outputs[0].type, inner.outputs[0].shape = "h", F32, ir.Shape([2, 4])
+                sub = ir.Graph([], [inner.outputs[0]], nodes=[inner], name="branch")
+                target = inner.outputs[0]
+            ctl = ir.Node("", "If", [x], num_outputs=1, name="ctl", attributes=[ir.AttrGraph("then_branch", sub)])
+            ctl.outputs[0].name = "r"
+            g = ir.Graph([x], [ctl.outputs[0]], nodes=[outer, ctl], name="main", opset_imports={"": 18})
+            model = ir.Model(g, ir_version=11)
+            cfg = model.add_device_configuration("tp", num_devices=2)
+            where = f"nested annotation ({variant}, axis={axis})"
+            try:
+                inner.shard(target, configuration=cfg, axis=axis, num_shards=2)
+                outer.shard(outer.outputs[0], configuration=cfg, axis=axis, num_shards=2)
+                back = ir.from_proto(ir.to_proto(model))
+            except Exception as e:  # noqa: BLE001
+                failures.append(f"{where}: raised {e!r}"[:200])
+                continue
+            msgs = _multi_device._check_device_configurations(back)
+            if msgs:
+                failures.append(f"{where}: after the round trip the checker reports {msgs[0]}")
+            for n in all_nodes(back.graph):
+                io = [v for v in list(n.inputs) + list(n.outputs) if v is not None]
+                for dc in n.device_configurations:
+                    for spec in dc.sharding_specs:
+                        if not any(spec.value is v for v in io):
+                            failures.append(f"{where}: after the round trip node {n.name!r} holds a sharding spec for a value named "
+                                            f"{spec.value.name!r} that is not one of its own inputs/outputs (outer scope won)")
+                if n.name == "inner":
+                    own = n.inputs[0] if variant == "body-input" else n.outputs[0]
+                    if not n.device_configurations or not any(spec.value is own for dc in n.device_configurations for spec in dc.sharding_specs):
+                        failures.append(f"{where}: after the round trip node 'inner' lost the sharding of its own value {own.name!r}")
+    return count
+
+
 def snapshot(model):
     return [(n.name, repr(n.device_configurations)) for n in model.graph] + [sorted(k for k in (model.device_configurations.keys() if hasattr(model.device_configurations, "keys") else []))]
 
@@ -84,6 +152,11 @@ def ops(model, cfgs):
     for ni, vname, c, axis, ns in itertools.product((0, 1, 2), ("x", "a", "b", "u", "b_renamed"), ("tp", "pp"), (0, -1, 5), (2, 0)):
         out.append((f"n{ni}.shard({vname},{c},axis={axis},num={ns})",
                     lambda ni=ni, vname=vname, c=c, axis=axis, ns=ns: list(model.graph)[ni].shard(val(vname), configuration=cfgs[c], axis=axis, num_shards=ns)))
+    # the same requests carrying a pipeline stage in the same call (validation must precede every effect, stage included)
+    for ni, vname, c, axis, st in itertools.product((0, 1, 2), ("x", "a", "b"), ("tp", "pp"), (0, -1, -2, 1, 5), (1, 3)):
+        out.append((f"n{ni}.shard({vname},{c},axis={axis},num=2,stage={st})",
+                    lambda ni=ni, vname=vname, c=c, axis=axis, st=st: list(model.graph)[ni].shard(val(vname), configuration=cfgs[c], axis=axis, num_shards=2,
+                                                                                         pipeline_stage=st)))
     for ni, c, st in itertools.product((0, 1), ("tp", "pp"), (0, -1, 2)):
         out.append((f"n{ni}.set_pipeline_stage({c},{st})", lambda ni=ni, c=c, st=st: list(model.graph)[ni].set_pipeline_stage(cfgs[c], st)))
     out.append(("rename b", lambda: setattr(val("b") or val("b_renamed"), "name", "b_renamed")))
@@ -124,6 +197,18 @@ def main():
             for l in leave:
                 seqs.append((s1, s2, l))
                 seqs.append((s2, s1, "rename b", l))
+    # directed: a repeated axis (same spelling or its negative alias) together with a stage, and a conflicting stage
+    for ni, vname in ((0, "x"), (1, "a"), (2, "x")):
+        for c in ("tp", "pp"):
+            for ax1, ax2 in ((0, 0), (0, -2), (-1, 1), (1, -1)):
+                first = f"n{ni}.shard({vname},{c},axis={ax1},num=2)" if ax1 in (0, -1) else f"n{ni}.shard({vname},{c},axis={ax1},num=2,stage=1)"
+                for st in (1, 3):
+                    seqs.append((first, f"n{ni}.shard({vname},{c},axis={ax2},num=2,stage={st})"))
+            seqs.append((f"n{ni}.shard({vname},{c},axis=0,num=2,stage=1)", f"n{ni}.shard({vname},{c},axis=1,num=2,stage=3)"))
+    nested = nested_annotation_cases(failures)
+    evaluations += nested
+    for i in range(nested):
+        distinct.add(("nested-annotation", i))
     samples = []
     for seq in seqs:
         evaluations += 1
